@@ -194,10 +194,14 @@ def materialize(desc: Desc, srcdir: Path) -> T.Dict[str, T.Any]:
             kept[f"{loc}/{c['out']}" if loc else c['out']] = 'copy'
         for name in SUBS:
             kept[f'subprojects/{name}/{name}_conf.h'] = 'configuration'
-        toggle: T.List[T.Tuple[str, str]] = [('prefix', '/opt/c06'), ('backend_max_links', '3')]
+        # second configuration key: one option whose change and change back is the *same option valuation* as never
+        # having touched it.  Not prefix (localstatedir/sharedstatedir defaults are derived from it at the first
+        # setup only) and not c_args/c_link_args (an explicit value also stops $CFLAGS from reaching the link line):
+        # those are questions of option resolution (C07/C08), not of determinism.
+        toggle: T.List[T.Tuple[str, str]] = [('backend_max_links', '3'), ('errorlogs', 'false'), ('bindir', 'c06bin')]
         if desc['lang']:
-            toggle = [('warning_level', '3'), ('buildtype', 'release'), ('b_ndebug', 'true'), ('prefix', '/opt/c06'),
-                      ('c_args', '-DTOGGLED'), ('backend_max_links', '3'), ('b_staticpic', 'false')]
+            toggle = [('warning_level', '3'), ('buildtype', 'release'), ('b_ndebug', 'true'), ('bindir', 'c06bin'),
+                      ('backend_max_links', '3'), ('b_staticpic', 'false'), ('werror', 'true'), ('strip', 'true')]
         for o in p['options']:
             if o['type'] == 'boolean' and not o['sp']:
                 toggle.append((o['name'], 'false' if o['value'] == 'true' else 'true'))
